@@ -31,7 +31,7 @@ CLAIMED = {
              'help); _FOR_FULL_RESULT is folded and compared with the documented codes/identifiers for every verdict; '
              'each of the three reporters is analysed for every verdict x has-sandbox x processing status: which stream '
              'gets the identifier, what else goes to stdout, which value is returned, and that identifier and exit code '
-             'come from one ExitValue. REC sweep over the data classes of `processing`, the exit-value and result records.',
+             'come from one ExitValue. REC sweep over the data classes of `processing`, the exit-value and result records. A preprocessor that cannot be started is PRE_PROCESS_ERROR (handlers cover OSError and ValueError); blank --actor / --preprocessor values are invalid usage.',
         design='DESIGN.md section 5, C02'),
     'C03': dict(
         technique='typestate traces of the executor; path analysis of the processor/accessor; who-may-call (closed '
@@ -69,7 +69,7 @@ CLAIMED = {
              'HardErrorException; every construction of ProcessExecutionSettings in the source takes its timeout from a '
              'live settings object and the timeout-dropping factories are unreferenced, so every value that can reach '
              'the site carries the timeout in force; environments are rebuilt per instruction from the live settings; '
-             'the default folds to a positive number; only the timeout instruction changes it.',
+             'the default folds to a positive number; only the timeout instruction changes it. The stdin text source is made from the environment in force when the action to check is executed, not when the stdin instruction runs.',
         design='DESIGN.md section 5, C19',
         note='Trusted: CPython subprocess.call kills and reaps the child when the timeout expires. Not decided: '
              'grandchildren of shell commands, wall-clock bounds.'),
@@ -114,7 +114,7 @@ CLAIMED = {
              'Conjunction / Disjunction / Negation are evaluated on explicit operand lists: ALL / ANY / NOT, lazily, '
              'operands applied in constructor order; the sequence transformer is evaluated on every identity pattern '
              'of up to three operands: left-to-right composition and identity flag. Parser errors are the syntax '
-             'error exception and never caught.',
+             'error exception and never caught. Components of prefix-like primitives are parsed as simple expressions unless delimited (frozen table of three), so a following && / || belongs to the enclosing expression.',
         design='DESIGN.md section 5, C06',
         note='Not decided: token-level layout (spaces), the primitives of each host type, bounded answer sequences '
              '(one level: 3 runs of 4 operands; two levels: one run of 3 operands).'),
@@ -128,7 +128,7 @@ CLAIMED = {
              'tested against the visited paths before it is parsed and the list handed on contains it; inclusion never '
              'writes the current-phase state of the including parser and merges by extending the existing list object '
              '(replacement only when the key is established to be absent); repeated phases reuse their list; the '
-             'element source keeps every line. The act phase collects a line only when the end of the document has been excluded since the last consumed line; every ParseSource of a document file is constructed from the text as read; REC sweep over `section_document`.',
+             'element source keeps every line. The act phase collects a line only when the end of the document has been excluded since the last consumed line; every ParseSource of a document file is constructed from the text as read; REC sweep over `section_document`. The root file is recorded as visited (resolved path); the inclusion chain of an error report is rendered link by link relative to the including file.',
         design='DESIGN.md section 5, C07',
         note='Not decided: line-number arithmetic of ParseSource.consume over all documents and comment / blank line '
              'handling (value level).'),
@@ -142,7 +142,7 @@ CLAIMED = {
              'and a restriction failure is never dropped; the transitive check applies the indirect restriction to '
              'every referenced symbol and recurses into its references on every iteration (none skipped); the symbol '
              'table is mutated only by validation, the def instruction and the symbol command; the type table is total '
-             'over the 13 value types and pairs each with its own parser; lists in strings join every element.',
+             'over the 13 value types and pairs each with its own parser; lists in strings join every element. A reference restricted to strings restricts the indirectly referenced symbols to strings too.',
         design='DESIGN.md section 5, C08'),
     'C10': dict(
         technique='argument-plumbing (keyword <-> attribute role table) at the process-start site; abstract evaluation '
@@ -157,7 +157,7 @@ CLAIMED = {
              'output files are written to the files of the result directory that the exit-code / stdout / stderr '
              'assertions read; every result translator agrees between its assertion and non-assertion forms, a '
              'non-zero exit code is FAIL in [assert] and HARD_ERROR elsewhere, -ignore-exit-code selects a translator '
-             'that is successful for every exit code. Every StdFiles / StdOutputFiles for a child process gives every channel explicitly (the defaults are Exactly\'s own stdin/stdout/stderr); every text writer flushes its file object before handing it to a process (typestate); REC sweep over the process-execution data classes.',
+             'that is successful for every exit code. Every StdFiles / StdOutputFiles for a child process gives every channel explicitly (the defaults are Exactly\'s own stdin/stdout/stderr); every text writer flushes its file object before handing it to a process (typestate); REC sweep over the process-execution data classes. Every returning path of the program-reference / command-program resolution keeps all accumulated components; the transformer-list resolvers denote the composition of exactly the non-identity operands in order.',
         design='DESIGN.md section 5, C10',
         note='Not decided: the argument vector denoted by arbitrary program syntax, the bytes the child receives.'),
     'C11': dict(
@@ -187,7 +187,7 @@ CLAIMED = {
              '-selection composes a conjunction and -with-pruned a disjunction with the earlier matcher first, other '
              'components kept; the file-type tables (syntax token, stat predicate, path predicate, the two accessors, '
              'the type matcher) agree for each of the three types; nothing in the matcher / file-list packages '
-             'resolves symbolic links. dir-contents-of looks at the destination with lstat() on every path (clash without following links); the recursive model is built from the stored depth limits (direct-contents shortcut only for max depth 0 and no min depth); application purity of matchers; REC sweep.',
+             'resolves symbolic links. dir-contents-of looks at the destination with lstat() on every path (clash without following links); the recursive model is built from the stored depth limits (direct-contents shortcut only for max depth 0 and no min depth); application purity of matchers; REC sweep. `file` / `dir NAME =` refuse an existing name (pre-check without following links, or exclusive creation); the copy primitives of dir-contents-of dereference links.',
         design='DESIGN.md section 5, C15',
         note='Not decided: the tree produced or matched for a given list / matcher, depth limits, counting (value level).'),
     'C16': dict(
@@ -201,7 +201,7 @@ CLAIMED = {
              'are enumerated before the listing suite; a read error returns the read-error reporter (exit 3) before '
              'anything executes; an accepted sub-suite path is recorded as visited at once (resolved path; root '
              'pre-recorded); glob results are materialised inside the handler that converts pattern errors and are '
-             'returned sorted.',
+             'returned sorted. Fields of suite read errors that may be None are never dereferenced unguarded (a cycle back to the root suite stays INVALID_SUITE / 3).',
         design='DESIGN.md section 5, C16'),
     'C17': dict(
         technique='freshness-chain (copy) analysis of per-case values; module-state scan; path-sensitive composition '
@@ -213,7 +213,7 @@ CLAIMED = {
              'and on every path of the concatenation both operands are kept unless the path condition says one is '
              'empty; standalone and suite runs derive the handling setup through the same function, with --suite '
              'before exactly.suite beside the case before the default; cases use the setup of the suite that lists '
-             'them, sub-suites start from the default. `resolve(symbols)` of every symbol-dependent value leaves the object it is called on unchanged (mutation summaries; a memo replaced whenever the freshly computed key differs is recognised) - the instructions of a suite file are parsed once and resolved for every case.',
+             'them, sub-suites start from the default. `resolve(symbols)` of every symbol-dependent value leaves the object it is called on unchanged (mutation summaries; a memo replaced whenever the freshly computed key differs is recognised) - the instructions of a suite file are parsed once and resolved for every case. The configuration builder is constructed per case; resolve changes neither its object nor the symbol table or anything looked up in it; the processors of a suite keep no state in apply.',
         design='DESIGN.md section 5, C17'),
     'C12': dict(
         technique='constant folding of relativity tables and destination configurations; alias/mutation analysis of the '
@@ -228,7 +228,7 @@ CLAIMED = {
              'every path; every symbol reference a path argument can produce carries the restriction built from that '
              'argument\'s accepted variants, and the restriction tests the resolved relativity as documented; every '
              'symbol-dependent value an instruction is built from is reported for validation. The unguarded '
-             'root/suffix joins (absolute suffix escapes the root) are a known finding (D6). `stacked(base, suffix)` stacks exactly its arguments and every value of a stacked path is <value of the base> / <the stacked suffix>; REC sweep over `tcfs` and the path types.',
+             'root/suffix joins (absolute suffix escapes the root) are a known finding (D6). `stacked(base, suffix)` stacks exactly its arguments and every value of a stacked path is <value of the base> / <the stacked suffix>; REC sweep over `tcfs` and the path types. The builtin directory symbols and environment variables name the root of the relativity whose directory has that name; no value function of the generic DDV layer stores what it computes from its arguments (a -rel-cd path is computed at each use).',
         design='DESIGN.md section 5, C12',
         note='Known finding D6 (6 join sites) is listed in known_findings.json.'),
     'C09': dict(
@@ -239,7 +239,7 @@ CLAIMED = {
              'comment characters and no escape characters on every path, and every lexer of the stream comes from that '
              'constructor; a hard-quoted token becomes one constant and is never searched for symbol references, every '
              'other token is; literal offsets equal the folded delimiter lengths; an unterminated quote is remembered '
-             'and raised as TokenSyntaxError by the next consume, and every handler of it reports a syntax error. Discard typestate (the rest of a line is thrown away only when known), affine offsets of the symbol-reference scanner, here-document body (only marker / end of source end it; body = the lines before the marker), and: a quoted word is never an option (option matches use the source string; is_option demands an unquoted token; decision table of the matcher).',
+             'and raised as TokenSyntaxError by the next consume, and every handler of it reports a syntax error. Discard typestate (the rest of a line is thrown away only when known), affine offsets of the symbol-reference scanner, here-document body (only marker / end of source end it; body = the lines before the marker), and: a quoted word is never an option (option matches use the source string; is_option demands an unquoted token; decision table of the matcher). The text of a here-document is decided over symbolic lines (every line followed by a new-line, the empty line included); every option match in the source tree is made against the source string of the token or after it was seen to have option syntax.',
         design='DESIGN.md section 5, C09',
         note='Only lexer configuration and quoting routing are decided; token boundaries and here-document bodies are '
              'value-level.'),
@@ -252,7 +252,7 @@ CLAIMED = {
              'Path.glob) is enclosed - in its function or at all its call sites - by handlers covering what the '
              'evaluator raises on ill-formed text and converting it to the repository\'s error channel; the integer '
              'evaluator maps every exception class of eval to "not an integer" and the integer / regex validators '
-             'report it in the applicable step. Format templates are constants (user text is an argument, never part of the template - messages are rendered lazily outside every handler); the document / instruction parsers use no raising search (`index`) without a handler; first-character tests on remaining source are guarded.',
+             'report it in the applicable step. Format templates are constants (user text is an argument, never part of the template - messages are rendered lazily outside every handler); the document / instruction parsers use no raising search (`index`) without a handler; first-character tests on remaining source are guarded. A field that is only ever None is never used as a value (contradiction rule; found defect D18).',
         design='DESIGN.md section 5, C18',
         note='Decides the known evaluator kinds listed in the checker (table EVALUATORS); "whatever text" as such is not '
              'decided.'),
@@ -265,7 +265,7 @@ CLAIMED = {
              'is built with the dual operator over the operands\' inversions, the negation evaluator rewrites && / || '
              'into the dual over negated operands and constants into the opposite constant, matchers of unknown kind '
              'are never narrowed in either polarity, and the interval classes\' own inversions are exact complements '
-             '(+1 / -1). Applying a primitive does not change it: mutation summaries over resolved calls show that no application method of any string transformer / matcher changes state stored in the object, directly or by handing it on.',
+             '(+1 / -1). Applying a primitive does not change it: mutation summaries over resolved calls show that no application method of any string transformer / matcher changes state stored in the object, directly or by handing it on. accept(visitor) of the four standard matchers hands over its own components through the visit method of its own kind; the value records of ranges / intervals hold what they are constructed with.',
         design='DESIGN.md section 5, C13',
         note='Only these soundness clauses are decided; the arithmetic of bounds, -line-nums range merging and '
              'negative indices are value-level and not claimed.'),
@@ -296,7 +296,7 @@ CLAIMED = {
              'the [conf] instruction names cover the same sets; the entity-type registry is total; every '
              'cross-reference visitor implements every target kind; anchor ids are target_renderer.apply(target) '
              'and hrefs "#" + the same; URL references are never in-document; id prefixes of target kinds are prefix '
-             'free. Decision table of the help request router over the folded keyword tables (`help PHASE`, `help PHASE INSTRUCTION`, `help ENTITY-TYPE` for every phase and entity type); every entity type is rendered exactly once in the HTML manual (exclusion list vs filter key, by kind of value); REC sweep over the help structures.',
+             'free. Decision table of the help request router over the folded keyword tables (`help PHASE`, `help PHASE INSTRUCTION`, `help ENTITY-TYPE` for every phase and entity type); every entity type is rendered exactly once in the HTML manual (exclusion list vs filter key, by kind of value); REC sweep over the help structures. A help listing that is a one-shot iterator is only accepted when the entity-type record materialises it.',
         design='DESIGN.md section 5, C20',
         note='Not decided: that every help page renders, that every href in the generated HTML has exactly one id '
              '(needs the document to be built - running the program).'),
